@@ -53,6 +53,33 @@ misc)
   m $SL 42 241 16 701 C18                 # statelint
   m $J2 1 1123 16 702 C18                 # j2119
   ;;
+misc2)  # (as run: the second half of misc with smaller batches, after the machine's other users asked for room)
+  m $ST 47 137 10 401 C20                 # JSONStore, SimpleStore
+  m $ST 138 627 20 402 C20 C11            # Redis stores
+  m $AR 31 84 10 501 C17                  # arn.py
+  m $ED 373 503 14 601 C19 C03 C02        # dispatch, acknowledge, publish, broadcast
+  m $SL 42 241 12 701 C18                 # statelint
+  m $J2 1 1123 10 702 C18                 # j2119
+  m $TD 743 879 12 203 C15                # handle_sfn_response (batch 203 again: its first run was discarded)
+  ;;
+api2)   # (as run: api with smaller batches)
+  m $RA 117 175 8 801 C17 C10             # validators
+  m $RA 282 842 20 802 C10                # Create/List/Describe/Update/Delete
+  m $RA 843 1179 16 803 C10 C17 C15       # StartExecution, StartSyncExecution
+  m $RA 1180 1349 12 804 C10 C09          # ListExecutions, DescribeExecution, GetExecutionHistory
+  m $RA 1350 1517 10 805 C15 C10          # SendTask*
+  m $RB 95 139 6 811 C17 C10              # validators
+  m $RB 174 605 16 812 C10                # Create/List/Describe/Update/Delete
+  m $RB 606 943 14 813 C10 C09 C17        # StartExecution, lists, history
+  ;;
+c16b)   # (as run) only from a private copy, MUT_JOBS=1
+  m $SE 554 616 4 901 C16
+  m $SE 783 950 4 902 C16
+  m $TD 325 742 4 903 C16
+  m $RA 843 1179 6 904 C16
+  m $RA 1350 1517 4 905 C16
+  m $RB 606 943 4 906 C16
+  ;;
 api)
   m $RA 117 175 10 801 C17 C10            # validators
   m $RA 282 842 36 802 C10                # Create/List/Describe/Update/Delete
